@@ -112,6 +112,9 @@ func (s *Schema) generateExample() (b []byte, err error) {
 // reaches the last code point and has none of the characters the generator picks
 // from in that case (printable ASCII, tab, line feed, carriage return): the
 // generator panics on such a class, e.g. on `[^\x00-\x7F]`.
+// In a class which does not reach the last code point the generator picks any
+// code point, and gives U+FFFD for a surrogate: the surrogates are taken out of
+// such a class, no text has them.
 // Reports whether the expression was changed.
 func replaceOpenClasses(re *syntax.Regexp) (changed bool) {
 	for _, sub := range re.Sub {
@@ -121,8 +124,11 @@ func replaceOpenClasses(re *syntax.Regexp) (changed bool) {
 	}
 
 	n := len(re.Rune)
-	if re.Op != syntax.OpCharClass || n == 0 || re.Rune[n-1] != unicode.MaxRune {
+	if re.Op != syntax.OpCharClass || n == 0 {
 		return changed
+	}
+	if re.Rune[n-1] != unicode.MaxRune {
+		return dropSurrogates(re) || changed
 	}
 	for i := 0; i < n; i += 2 {
 		for _, known := range [][2]rune{{' ', '~'}, {'\t', '\n'}, {'\r', '\r'}} {
@@ -131,8 +137,34 @@ func replaceOpenClasses(re *syntax.Regexp) (changed bool) {
 			}
 		}
 	}
+	dropSurrogates(re)
 	re.Op, re.Rune = syntax.OpLiteral, []rune{classMember(re.Rune)}
 	return true
+}
+
+// dropSurrogates takes U+D800-U+DFFF out of the ranges of the class.
+// Reports whether the class was changed.
+func dropSurrogates(re *syntax.Regexp) (changed bool) {
+	const first, last = 0xD800, 0xDFFF
+	class := make([]rune, 0, len(re.Rune)+2)
+	for i := 0; i < len(re.Rune); i += 2 {
+		lo, hi := re.Rune[i], re.Rune[i+1]
+		if hi < first || lo > last {
+			class = append(class, lo, hi)
+			continue
+		}
+		changed = true
+		if lo < first {
+			class = append(class, lo, first-1)
+		}
+		if hi > last {
+			class = append(class, last+1, hi)
+		}
+	}
+	if changed {
+		re.Rune = class
+	}
+	return changed
 }
 
 // classMember returns the first printable member of the class, or else its first member.
